@@ -525,8 +525,15 @@ func (p *prov) call(x *ssa.Call, d int) []string {
 		p.inl = append(p.inl, callee)
 		nres := callee.Signature.Results().Len()
 		per := make([][]string, nres)
+		skipFailed := nres >= 2 && isErrorType(callee.Signature.Results().At(nres-1).Type()) && errGuardedUses(x)
 		for _, ret := range returnsOf(callee) {
 			rr := retResults(ret)
+			if skipFailed && len(rr) == nres && definitelyNonNilErr(rr[nres-1], ret.Block()) {
+				// the caller uses the other results only where this call's error is nil: what a failing
+				// return hands back besides the error is never looked at
+				per[nres-1] = append(per[nres-1], p.origins(rr[nres-1], d+1)...)
+				continue
+			}
 			for i := 0; i < nres && i < len(rr); i++ {
 				per[i] = append(per[i], p.origins(rr[i], d+1)...)
 			}
@@ -647,4 +654,120 @@ func (p *prov) Opaque(fns ...*ssa.Function) *prov {
 		}
 	}
 	return p
+}
+
+// errGuardedUses: every use of a non-error result of the call sits where the call's error result is known to be nil.
+func errGuardedUses(call ssa.Value) bool {
+	refs := call.Referrers()
+	if refs == nil {
+		return false
+	}
+	tup, ok := call.Type().(*types.Tuple)
+	if !ok {
+		return false
+	}
+	var errExt *ssa.Extract
+	var others []*ssa.Extract
+	for _, r := range *refs {
+		ex, ok := r.(*ssa.Extract)
+		if !ok {
+			if _, dbg := r.(*ssa.DebugRef); dbg {
+				continue
+			}
+			return false
+		}
+		if ex.Index == tup.Len()-1 {
+			errExt = ex
+		} else {
+			others = append(others, ex)
+		}
+	}
+	if errExt == nil {
+		return false
+	}
+	nilHere := func(b *ssa.BasicBlock) bool {
+		for _, g := range guardsOf(b) {
+			bin, ok := g.Cond.(*ssa.BinOp)
+			if !ok || bin.X != ssa.Value(errExt) {
+				continue
+			}
+			if k, ok := bin.Y.(*ssa.Const); !ok || k.Value != nil {
+				continue
+			}
+			if (bin.Op == token.EQL) == g.Truth && (bin.Op == token.EQL || bin.Op == token.NEQ) {
+				return true
+			}
+		}
+		return false
+	}
+	for _, ex := range others {
+		urefs := ex.Referrers()
+		if urefs == nil {
+			continue
+		}
+		for _, u := range *urefs {
+			if _, dbg := u.(*ssa.DebugRef); dbg {
+				continue
+			}
+			if phi, ok := u.(*ssa.Phi); ok {
+				for i, e := range phi.Edges {
+					if e == ssa.Value(ex) && !nilHere(phi.Block().Preds[i]) {
+						return false
+					}
+				}
+				continue
+			}
+			if nilHere(u.Block()) {
+				continue
+			}
+			// `v, err := f()` with v a variable that lives in memory: the store precedes the error test;
+			// what matters is where the variable is looked at afterwards
+			if st, ok := u.(*ssa.Store); ok && st.Val == ssa.Value(ex) {
+				if al, ok := st.Addr.(*ssa.Alloc); ok && al.Referrers() != nil {
+					okAll := true
+					for _, au := range *al.Referrers() {
+						if au == ssa.Instruction(st) {
+							continue
+						}
+						if _, dbg := au.(*ssa.DebugRef); dbg {
+							continue
+						}
+						if !nilHere(au.Block()) {
+							okAll = false
+						}
+					}
+					if okAll {
+						continue
+					}
+				}
+			}
+			return false
+		}
+	}
+	return true
+}
+
+// definitelyNonNilErr: the error operand of a return is a freshly made error or is known non-nil where it is returned.
+func definitelyNonNilErr(v ssa.Value, at *ssa.BasicBlock) bool {
+	if call, ok := v.(*ssa.Call); ok {
+		if f := call.Call.StaticCallee(); f != nil && f.Pkg != nil {
+			switch f.Pkg.Pkg.Path() + "." + f.Name() {
+			case "fmt.Errorf", "errors.New":
+				return true
+			}
+		}
+	}
+	if _, ok := v.(*ssa.MakeInterface); ok {
+		return true // a concrete value boxed into the interface is a non-nil interface
+	}
+	for _, g := range guardsOf(at) {
+		bin, ok := g.Cond.(*ssa.BinOp)
+		if !ok || bin.X != v {
+			continue
+		}
+		if k, ok := bin.Y.(*ssa.Const); ok && k.Value == nil && (bin.Op == token.NEQ) == g.Truth && (bin.Op == token.EQL || bin.Op == token.NEQ) {
+			return true
+		}
+	}
+	return false
 }
